@@ -723,6 +723,8 @@ type loopHead struct {
 func (u *Unit) modifiedBy(st *State, run func(s *State) []*State) (vars map[types.Object]bool, heaps map[string]bool, gvars map[string]bool, wm bool) {
 	u.quiet++
 	serial0 := u.allocSerial
+	declN0 := u.d.n
+	u.fixedIdx = map[string][]string{}
 	probe := st.clone()
 	outs := run(probe)
 	u.quiet--
@@ -745,14 +747,23 @@ func (u *Unit) modifiedBy(st *State, run func(s *State) []*State) (vars map[type
 			}
 			if ov != v {
 				heaps[k] = true
-				// does the chain of stores from the head value to v only touch objects allocated in this iteration?
+				// Which indices does the chain of stores from the head value to v touch? Objects allocated in this
+				// iteration, and/or index terms that are fixed across iterations (built from pre-loop values only).
 				okFresh := true
 				cur := v
+				var fixed []string
 				for steps := 0; cur != ov; steps++ {
 					ent, found := u.storeLog[cur]
-					if !found || steps > 10000 || u.allocN[ent[1]] <= serial0 {
+					if !found || steps > 10000 {
 						okFresh = false
 						break
+					}
+					if u.allocN[ent[1]] <= serial0 {
+						if hasFreshConst(ent[1], declN0) {
+							okFresh = false
+							break
+						}
+						fixed = append(fixed, ent[1])
 					}
 					cur = ent[0]
 				}
@@ -761,6 +772,7 @@ func (u *Unit) modifiedBy(st *State, run func(s *State) []*State) (vars map[type
 				} else {
 					u.freshOnly[k] = okFresh
 				}
+				u.fixedIdx[k] = append(u.fixedIdx[k], fixed...)
 			}
 		}
 		if o.epoch != st.epoch {
@@ -773,6 +785,28 @@ func (u *Unit) modifiedBy(st *State, run func(s *State) []*State) (vars map[type
 		}
 		if o.wm != st.wm {
 			wm = true
+		}
+	}
+	// a "fixed" index term must not mention anything the loop itself changes
+	for k, idxs := range u.fixedIdx {
+		for _, idx := range idxs {
+			bad := false
+			for h := range heaps {
+				if cur, ok := st.heap[h]; ok && strings.Contains(idx, cur) {
+					bad = true
+				}
+				if strings.Contains(idx, quoteSym(h+"@")) || strings.Contains(idx, h+"@") {
+					bad = true
+				}
+			}
+			for ov := range vars {
+				if val := st.vars[ov]; val != nil && val.S != "" && !isLitTerm(val.S) && strings.Contains(idx, val.S) {
+					bad = true
+				}
+			}
+			if bad {
+				u.freshOnly[k] = false
+			}
 		}
 	}
 	return
@@ -829,11 +863,20 @@ func (u *Unit) havocLoopState(st *State, vars map[types.Object]bool, heaps map[s
 			before := u.heapGet(st, h, u.eng.heapSorts[h])
 			u.heapHavoc(st, h)
 			if u.freshOnly[h] {
-				// inferred frame: the loop body writes this array only at objects it allocates itself,
-				// so every object that existed at the loop head keeps its value.
+				// inferred frame: the loop body writes this array only at objects it allocates itself and at
+				// index terms that are the same in every iteration; every other object that existed at the loop
+				// head keeps its value.
 				bvCounter++
 				r := fmt.Sprintf("lf!%d", bvCounter)
-				st.assumeFact(fmt.Sprintf("(forall ((%s Int)) (! (=> (<= %s %s) (= (select %s %s) (select %s %s))) :pattern ((select %s %s))))", r, r, wmHead, st.heap[h], r, before, r, st.heap[h], r))
+				conds := []string{app("<=", r, wmHead)}
+				seen := map[string]bool{}
+				for _, idx := range u.fixedIdx[h] {
+					if !seen[idx] {
+						seen[idx] = true
+						conds = append(conds, app("distinct", r, idx))
+					}
+				}
+				st.assumeFact(fmt.Sprintf("(forall ((%s Int)) (! (=> %s (= (select %s %s) (select %s %s))) :pattern ((select %s %s))))", r, tAnd(conds...), st.heap[h], r, before, r, st.heap[h], r))
 			}
 		}
 	}
@@ -1282,4 +1325,22 @@ func (u *Unit) returnAsserts(st *State, x *ast.ReturnStmt) {
 		g, q := u.evalSpecBool(st, ca.E, env, false)
 		u.oblige(st, fmt.Sprintf("at-return(%d).assert.%d", u.retOrd[x], ca.N), "return-assert", ca.E.String(), g, q)
 	}
+}
+
+// hasFreshConst: does the term mention a constant created after declaration counter n0 (name!N with N > n0)?
+func hasFreshConst(term string, n0 int) bool {
+	for i := 0; i < len(term); i++ {
+		if term[i] == '!' {
+			j := i + 1
+			n := 0
+			for j < len(term) && term[j] >= '0' && term[j] <= '9' {
+				n = n*10 + int(term[j]-'0')
+				j++
+			}
+			if j > i+1 && n > n0 {
+				return true
+			}
+		}
+	}
+	return false
 }
